@@ -648,6 +648,30 @@ func c11(c *Ctx) {
 		}
 	})
 
+	if c.Tier == "thorough" {
+		c.Rule("C11.R7", "thorough: per the VTA call graph the functions touching the parked state are called only from code owned by the Run goroutine", 4, func(r *Rule) {
+			if run == nil {
+				r.Unresolved("(*CloudHandler).Run")
+				return
+			}
+			owned := ownedBy(w, run, P)
+			touch := map[*ssa.Function]bool{}
+			for _, f := range parked {
+				for _, fn := range fieldTouchers(w, "CloudHandler", f) {
+					touch[fn] = true
+				}
+			}
+			for fn := range touch {
+				if fn == run || fn.Name() == "NewCloudHandler" || fn.Parent() != nil {
+					continue
+				}
+				for _, caller := range vtaCallersOf(w, fn) {
+					r.Check("vta-caller:"+fn.Name()+":"+FuncName(caller), owned[caller] || caller.Synthetic != "", caller.Pos(), FuncName(caller)+" may call "+fn.Name()+" per VTA; it must run on the Run goroutine")
+				}
+			}
+		})
+	}
+
 	c.Rule("C11.R6", "four-type exhaustiveness in the cloud stage (C07.R6)", 3, func(r *Rule) {
 		fourTypeRule(c, r, func(fn *ssa.Function) bool {
 			return fn.Signature.Recv() != nil && typeIs(fn.Signature.Recv().Type(), P, "CloudHandler")
